@@ -27,8 +27,8 @@ static std::string fbody(int r, const std::string& X)
     return "";
 }
 
-enum { C_ARRSIZE, C_RANGE, C_SCALAR, C_GINIT, C_LINIT, C_VALARG, C_CREFARG, C_LARRSIZE, C_LRANGE, C_STRUCTARR, NCTX };
-static const char* CTXNAME[] = {"array-size", "range-bound", "scalar-set-size", "global-initialiser", "template-initialiser", "value-argument", "const-ref-argument", "template-array-size", "template-range-bound", "array-size-in-struct"};
+enum { C_ARRSIZE, C_RANGE, C_SCALAR, C_GINIT, C_LINIT, C_VALARG, C_CREFARG, C_LARRSIZE, C_LRANGE, C_STRUCTARR, C_ARR_INNER, C_ARR_INNER3, C_ELEMRANGE, C_TYPEDEF_ROW, C_STRUCT_INNER, C_FUNLOCAL_ARR, NCTX };
+static const char* CTXNAME[] = {"array-size", "range-bound", "scalar-set-size", "global-initialiser", "template-initialiser", "value-argument", "const-ref-argument", "template-array-size", "template-range-bound", "array-size-in-struct", "inner-array-dimension", "third-array-dimension", "element-range-of-an-array", "row-typedef-size", "inner-dimension-in-struct", "function-local-inner-dimension"};
 
 static std::string model(int ctx, const std::string& decls, const std::string& E)
 {
@@ -39,6 +39,13 @@ static std::string model(int ctx, const std::string& decls, const std::string& E
     case C_SCALAR: s += "typedef scalar[" + E + "] SS; SS sv;\n"; break;
     case C_GINIT: s += "int gi = " + E + ";\n"; break;
     case C_STRUCTARR: s += "struct { int f[" + E + "]; } sa;\n"; break;
+    // the expression may sit in any dimension of the declarator, in the element type, behind a typedef, in a field, in a function's local
+    case C_ARR_INNER: s += "int arr2[2][" + E + "];\n"; break;
+    case C_ARR_INNER3: s += "int arr3[2][K][" + E + " + 1];\n"; break;
+    case C_ELEMRANGE: s += "int[0, " + E + "] arr4[2];\n"; break;
+    case C_TYPEDEF_ROW: s += "typedef int row_t[" + E + "]; row_t rows[2];\n"; break;
+    case C_STRUCT_INNER: s += "struct { int f[2][" + E + "]; } sb;\n"; break;
+    case C_FUNLOCAL_ARR: s += "void hf() { int la[2][" + E + "]; la[0][0] = 1; }\n"; break;
     }
     s += "process Q(" + std::string(ctx == C_CREFARG ? "const int& p" : "int p") + ") { state S0; init S0; }\n";
     s += "process P() {\n";
@@ -50,7 +57,7 @@ static std::string model(int ctx, const std::string& decls, const std::string& E
     return s;
 }
 
-extern "C" void harness_chain()  /* vf: bounds=10_contexts_x_chain_length_0..2_(links:const_initialiser,function_body,arithmetic,element_of_a_constant_array,inline-if_between_constants)_x_8_function_read_forms_x_3_terminals(literal,const,mutable) */
+extern "C" void harness_chain()  /* vf: bounds=16_contexts(incl._inner_dimensions,element_ranges,row_typedefs,struct_fields,function_locals)_x_chain_length_0..2_(links:const_initialiser,function_body,arithmetic,element_of_a_constant_array,inline-if_between_constants)_x_8_function_read_forms_x_3_terminals(literal,const,mutable) */
 {
     int ctx = vf_pick("!context", NCTX), term = vf_pick("!terminal", NTERM), len = vf_range("!length", 0, 2);
     std::string decls, E = TERM[term];
@@ -72,7 +79,7 @@ extern "C" void harness_chain()  /* vf: bounds=10_contexts_x_chain_length_0..2_(
     vf_reach("end");
 }
 
-extern "C" void harness_chain3()  /* vf: tier=thorough bounds=10_contexts_x_chain_length_3_x_8_function_read_forms_x_3_terminals */
+extern "C" void harness_chain3()  /* vf: tier=thorough bounds=16_contexts_x_chain_length_3_x_8_function_read_forms_x_3_terminals */
 {
     int ctx = vf_pick("!context", NCTX), term = vf_pick("!terminal", NTERM);
     std::string decls, E = TERM[term];
@@ -94,10 +101,13 @@ extern "C" void harness_chain3()  /* vf: tier=thorough bounds=10_contexts_x_chai
 }
 
 // free process parameters must never reach an array size (or a select / scalar-set size), directly or through template-local constants
-extern "C" void harness_free_parameter()  /* vf: bounds=free_vs_bound_process_parameter_reaching_(array_size,scalar_set_size,select_range,array_size_in_local_typedef)_through_0..3_template-local_constants_or_a_function */
+extern "C" void harness_free_parameter()  /* vf: bounds=process_parameter_left_free_or_bound_along_6_routes(system_line,direct,partial_instantiation,argument_expression,chains_of_partial_instantiations)_reaching_(array_size,scalar_set_size,select_range,array_size_in_local_typedef)_through_0..3_template-local_constants_or_a_function */
 {
-    int use = vf_pick("!use", 4), len = vf_range("!length", 0, 3), bound = vf_pick("!bound", 2), viafun = vf_pick("!via_function", 2);
-    std::string s = "const int K = 2;\nprocess P(const int[1,2] p) {\n";
+    // route: how the parameter stays free or gets bound - 0 'system P' (free), 1 bound directly, 2 free through a partial instantiation,
+    // 3 free through an argument expression of a partial instantiation, 4 free through a chain of two partial instantiations, 5 bound at the end of such a chain
+    int use = vf_pick("!use", 4), len = vf_range("!length", 0, 3), route = vf_pick("!bound", 6), viafun = vf_pick("!via_function", 2);
+    bool bound = route == 1 || route == 5;
+    std::string s = "const int K = 2;\nprocess P(const int[1,2] p, const int[0,1] m) {\n";
     std::string E = "p";
     for (int i = 0; i < len; i++) { std::string n = std::to_string(i); s += " const int c" + n + " = " + E + " + 1;\n"; E = "c" + n; }
     if (viafun) { s += " int f() { return " + E + "; }\n"; E = "f()"; }
@@ -109,7 +119,14 @@ extern "C" void harness_free_parameter()  /* vf: bounds=free_vs_bound_process_pa
     case 3: s += " typedef int LA[" + E + "]; LA la;\n"; break;
     }
     s += " state A, B; init A;\n trans A -> B {" + sel + " };\n}\n";
-    s += bound ? "P0 = P(1);\nsystem P0;\n" : "system P;\n";
+    switch (route) {
+    case 0: s += "system P;\n"; break;
+    case 1: s += "P0 = P(1, 0);\nsystem P0;\n"; break;
+    case 2: s += "Q(const int[1,2] k) = P(k, 1);\nsystem Q;\n"; break;
+    case 3: s += "Q(const int[0,1] k) = P(k + 1, 1);\nsystem Q;\n"; break;
+    case 4: s += "Q(const int[1,2] k, const int[0,1] n) = P(k, n);\nR(const int[1,2] j) = Q(j, 1);\nsystem R;\n"; break;
+    case 5: s += "Q(const int[1,2] k, const int[0,1] n) = P(k, n);\nR(const int[0,1] j) = Q(2, j);\nsystem R;\n"; break;
+    }
     Model m;
     bool ok = m.load(s);
     vf_note(s.c_str()); vf_notei("accepted", ok);
